@@ -1,0 +1,72 @@
+//go:build verif
+
+package bindingcontext
+
+// Contracts for the verification framework in /verif (comment-only file, build tag `verif`).
+// C09: the fields of a binding context per binding type (documented in HOOKS.md).
+
+//@ pred Snap(bc BindingContext) := len(bc.Metadata.IncludeSnapshots) > 0 || bc.Metadata.IncludeAllSnapshots
+//@ pred IsWebhook(bc BindingContext) := bc.Metadata.BindingType == htypes.KubernetesValidating || bc.Metadata.BindingType == htypes.KubernetesMutating || bc.Metadata.BindingType == htypes.KubernetesConversion
+//@ pred Str(v interface{}, s string) := dyntype(v, string) && v.(string) == s
+
+//@ func (BindingContext).MapV1
+//@   prop C09
+//@   modifies nothing
+//@   let T := bc.Metadata.BindingType
+//@   let grouped := !IsWebhook(bc) && bc.Metadata.BindingType != htypes.OnStartup && bc.Metadata.Group != ""
+//@   let kube := !IsWebhook(bc) && bc.Metadata.Group == "" && bc.Metadata.BindingType == htypes.OnKubernetesEvent && bc.Type != ""
+//@   ensures [binding]    result != nil && has(result, "binding") && Str(result["binding"], bc.Binding)
+//@   ensures [onStartup]  T == htypes.OnStartup ==> forall(k, string, has(result, k) == (k == "binding"))
+//@   ensures [snapshots]  T != htypes.OnStartup ==> has(result, "snapshots") == Snap(bc)
+//@   ensures [validating] T == htypes.KubernetesValidating ==> Str(result["type"], "Validating")
+//@        && forall(k, string, has(result, k) == (k == "binding" || k == "type" || k == "review" || (k == "snapshots" && Snap(bc))))
+//@   ensures [mutating]   T == htypes.KubernetesMutating ==> Str(result["type"], "Mutating")
+//@        && forall(k, string, has(result, k) == (k == "binding" || k == "type" || k == "review" || (k == "snapshots" && Snap(bc))))
+//@   ensures [conversion] T == htypes.KubernetesConversion ==> Str(result["type"], "Conversion") && Str(result["fromVersion"], bc.FromVersion) && Str(result["toVersion"], bc.ToVersion)
+//@        && forall(k, string, has(result, k) == (k == "binding" || k == "type" || k == "review" || k == "fromVersion" || k == "toVersion" || (k == "snapshots" && Snap(bc))))
+//@   ensures [group]      grouped ==> Str(result["type"], "Group") && Str(result["groupName"], bc.Metadata.Group)
+//@        && forall(k, string, has(result, k) == (k == "binding" || k == "type" || k == "groupName" || (k == "snapshots" && Snap(bc))))
+//@   ensures [schedule]   T == htypes.Schedule && bc.Metadata.Group == "" ==> Str(result["type"], "Schedule")
+//@        && forall(k, string, has(result, k) == (k == "binding" || k == "type" || (k == "snapshots" && Snap(bc))))
+//@   ensures [kube-type]  kube ==> dyntype(result["type"], kemtypes.KubeEventType) && result["type"].(kemtypes.KubeEventType) == bc.Type
+//@        && has(result, "watchEvent") == (bc.WatchEvent != "")
+//@   ensures [synchronization] kube && bc.Type == kemtypes.TypeSynchronization ==> has(result, "objects")
+//@        && forall(k, string, has(result, k) == (k == "binding" || k == "type" || k == "objects" || (k == "watchEvent" && bc.WatchEvent != "") || (k == "snapshots" && Snap(bc))))
+//@   ensures [event-no-object] kube && bc.Type == kemtypes.TypeEvent && len(bc.Objects) == 0 ==>
+//@        forall(k, string, has(result, k) == (k == "binding" || k == "type" || k == "object" || (k == "filterResult" && bc.Metadata.JqFilter != "") || (k == "watchEvent" && bc.WatchEvent != "") || (k == "snapshots" && Snap(bc))))
+//@   ensures [event-object] kube && bc.Type == kemtypes.TypeEvent && len(bc.Objects) > 0 ==>
+//@        has(result, "object") == !bc.Objects[0].Metadata.RemoveObject
+//@        && (bc.Objects[0].Metadata.JqFilter != "" ==> has(result, "filterResult"))
+//@        && (bc.Objects[0].Metadata.JqFilter == "" && bc.Objects[0].FilterResult == nil ==> !has(result, "filterResult"))
+//@        && (bc.Objects[0].Metadata.JqFilter != "" && !dyntype(bc.Objects[0].FilterResult, string) ==> result["filterResult"] == bc.Objects[0].FilterResult)
+//@        && forall(k, string, has(result, k) ==> k == "binding" || k == "type" || k == "object" || k == "filterResult" || k == "watchEvent" || k == "snapshots")
+//@   loop 1
+//@     invariant res != nil && objMap != nil && fresh(res) && res != objMap
+//@     invariant forall(k, string, has(objMap, k) == atloop(has(objMap, k)) && objMap[k] == atloop(objMap[k]))
+//@     invariant forall(k, string, has(res, k) == (atloop(has(res, k)) || (visited(k) && has(objMap, k))))
+//@     invariant forall(k, string, visited(k) && has(objMap, k) ==> res[k] == objMap[k])
+//@     invariant forall(k, string, !has(objMap, k) ==> res[k] == atloop(res[k]))
+
+//@ func (BindingContext).MapV0
+//@   prop C09
+//@   modifies nothing
+//@   ensures [binding] result != nil && has(result, "binding") && Str(result["binding"], bc.Binding)
+//@   ensures [non-kube] bc.Metadata.BindingType != htypes.OnKubernetesEvent ==> forall(k, string, has(result, k) == (k == "binding"))
+//@   ensures [kube]     bc.Metadata.BindingType == htypes.OnKubernetesEvent ==> has(result, "resourceEvent")
+//@        && forall(k, string, has(result, k) ==> k == "binding" || k == "resourceEvent" || k == "resourceNamespace" || k == "resourceKind" || k == "resourceName")
+
+//@ func (BindingContext).Map
+//@   prop C09
+//@   modifies nothing
+//@   ensures [versioned] bc.Metadata.Version == "v0" || bc.Metadata.Version == "v1" ==> result != nil && has(result, "binding") && Str(result["binding"], bc.Binding)
+
+// C09: the list handed to the hook has one item per binding context of the task, in order.
+//@ func ConvertBindingContextList
+//@   prop C09
+//@   requires version == "v0" || version == "v1"
+//@   modifies nothing
+//@   ensures [length] len(result) == len(contexts)
+//@   ensures [order]  forall(i, 0, len(contexts), result[i] != nil && has(result[i], "binding") && Str(result[i]["binding"], contexts[i].Binding))
+//@   loop 1
+//@     invariant 0 <= iter() && iter() <= len(contexts) && fresh(res) && len(res) == len(contexts)
+//@     invariant forall(i, 0, iter(), res[i] != nil && has(res[i], "binding") && Str(res[i]["binding"], contexts[i].Binding))
